@@ -109,7 +109,8 @@ Section Crash.
       dok d /\ meta_valid s /\
       match o with
       | ORemove _ => True
-      | OWrite _ _ _ _ => (rlookup (rd d) id = None /\ fget s (PMeta id) = None) \/ drep s (rd d) id
+      | OWrite _ _ _ _ => (rlookup (rd d) id = None /\ fget s (PMeta id) = None) \/ drep s (rd d) id \/
+                          drep s (fst (ref_step (rd d) o)) id
       | _ => drep s (rd d) id \/ drep s (fst (ref_step (rd d) o)) id
       end.
 
@@ -155,7 +156,7 @@ Section Crash.
         + destruct Hrep as (e0 & m0 & He & Hm & Ha).
           apply (okrun_write_noid enc_env enc_meta chunk CI CB).
           * intros c [<-|[]]. congruence.
-          * split; [exact Hres|]. split; [exact Hmv|]. right. unfold disk_rep. rewrite E. exists e0, m0. auto.
+          * split; [exact Hres|]. split; [exact Hmv|]. right. left. unfold disk_rep. rewrite E. exists e0, m0. auto.
           * assert (Es : ref_step (rd d) (OWrite e ts [id] (t1 :: t2 :: tmps0)) = (rd d, RNoId)).
             { cbn [ref_step first_free]. rewrite E. reflexivity. }
             split; [apply dok_snoc; [exact Hres|exact Hown0|rewrite Es; reflexivity]|].
@@ -173,12 +174,15 @@ Section Crash.
           * intros s2 A G1 G2 N1 N2.
             assert (Es : ref_step (rd d) (OWrite e ts [id] (t1 :: t2 :: tmps0)) = (aset N.eqb (rd d) id (mkEntry e ts 0), RId id)).
             { cbn [ref_step first_free]. rewrite E. reflexivity. }
+            assert (R2 : drep s2 (aset N.eqb (rd d) id (mkEntry e ts 0)) id).
+            { unfold disk_rep, rlookup. rewrite nget_set_same. exists e, (mkMeta ts 0 None).
+              repeat split; try assumption. apply accum_entry_new. }
+            split.
+            { split; [exact Hres|]. split; [eapply drep_meta_valid; exact R2|]. right. right. rewrite Es. exact R2. }
             split; [apply dok_snoc; [exact Hres|exact Hown0|rewrite Es; reflexivity]|].
-            rewrite rd_snoc, Es. cbn [fst]. split.
-            -- unfold disk_rep, rlookup. rewrite nget_set_same. exists e, (mkMeta ts 0 None).
-               repeat split; try assumption. apply accum_entry_new.
-            -- eapply tmps_free_agree; [exact A|exact Hfree|].
-               intros t [E'|[E'|[E'|[E'|[]]]]]; inversion E'; subst; assumption.
+            rewrite rd_snoc, Es. cbn [fst]. split; [exact R2|].
+            eapply tmps_free_agree; [exact A|exact Hfree|].
+            intros t [E'|[E'|[E'|[E'|[]]]]]; inversion E'; subst; assumption.
       - (* set_timestamp *)
         destruct tmps0 as [|t tmps0]; cbn [length] in Htok; try lia.
         cbn [wf_op] in Hwf. destruct (rlookup (rd d) id0) as [en|] eqn:E; [|discriminate].
@@ -190,15 +194,19 @@ Section Crash.
           try reflexivity; try exact Hm; try (apply Hfree, Htin; left; reflexivity).
         + intros s' A. split; [exact Hres|]. pose proof (agree_tmp_rep s s' t _ A Hrep) as R'.
           split; [eapply drep_meta_valid; exact R'|left; exact R'].
-        + intros s2 A G F. split; [apply dok_snoc; [exact Hres|exact Hown0|rewrite Es; reflexivity]|].
-          rewrite rd_snoc, Es. cbn [fst]. split.
-          * unfold disk_rep, rlookup. rewrite nget_set_same. exists e, (mkMeta ts (m_att m) (m_deliv m)).
+        + intros s2 A G F.
+          assert (R2 : drep s2 (aset N.eqb (rd d) id (mkEntry (en_env en) ts (en_att en))) id).
+          { unfold disk_rep, rlookup. rewrite nget_set_same. exists e, (mkMeta ts (m_att m) (m_deliv m)).
             split; [rewrite A; [exact He|intros [E'|[E'|[]]]; discriminate]|]. split; [exact G|].
             unfold deliv_list in *. cbn [m_ts m_att m_deliv].
             rewrite (accum_entry_meta e _ _ _ en ts (m_att m) Ha).
-            destruct (accum_entry_fields _ _ _ _ _ Ha) as [_ <-]. reflexivity.
-          * eapply tmps_free_agree; [exact A|exact Hfree|].
-            intros t' [E'|[E'|[]]]; inversion E'; subst; assumption.
+            destruct (accum_entry_fields _ _ _ _ _ Ha) as [_ <-]. reflexivity. }
+          split.
+          { split; [exact Hres|]. split; [eapply drep_meta_valid; exact R2|]. right. rewrite Es. exact R2. }
+          split; [apply dok_snoc; [exact Hres|exact Hown0|rewrite Es; reflexivity]|].
+          rewrite rd_snoc, Es. cbn [fst]. split; [exact R2|].
+          eapply tmps_free_agree; [exact A|exact Hfree|].
+          intros t' [E'|[E'|[]]]; inversion E'; subst; assumption.
       - (* increment_attempts *)
         destruct tmps0 as [|t tmps0]; cbn [length] in Htok; try lia.
         cbn [wf_op] in Hwf. destruct (rlookup (rd d) id0) as [en|] eqn:E; [|discriminate].
@@ -212,14 +220,18 @@ Section Crash.
           try reflexivity; try exact Hm; try (apply Hfree, Htin; left; reflexivity).
         + intros s' A. split; [exact Hres|]. pose proof (agree_tmp_rep s s' t _ A Hrep) as R'.
           split; [eapply drep_meta_valid; exact R'|left; exact R'].
-        + intros s2 A G F. split; [apply dok_snoc; [exact Hres|exact Hown0|rewrite Es; cbn [snd m_att]; rewrite Hatt; reflexivity]|].
-          rewrite rd_snoc, Es. cbn [fst]. split.
-          * unfold disk_rep, rlookup. rewrite nget_set_same. exists e, (mkMeta (m_ts m) (m_att m + 1) (m_deliv m)).
+        + intros s2 A G F.
+          assert (R2 : drep s2 (aset N.eqb (rd d) id (mkEntry (en_env en) (en_ts en) (en_att en + 1))) id).
+          { unfold disk_rep, rlookup. rewrite nget_set_same. exists e, (mkMeta (m_ts m) (m_att m + 1) (m_deliv m)).
             split; [rewrite A; [exact He|intros [E'|[E'|[]]]; discriminate]|]. split; [exact G|].
             unfold deliv_list in *. cbn [m_ts m_att m_deliv].
-            rewrite (accum_entry_meta e _ _ _ en (m_ts m) (m_att m + 1) Ha). rewrite Hts, Hatt. reflexivity.
-          * eapply tmps_free_agree; [exact A|exact Hfree|].
-            intros t' [E'|[E'|[]]]; inversion E'; subst; assumption.
+            rewrite (accum_entry_meta e _ _ _ en (m_ts m) (m_att m + 1) Ha). rewrite Hts, Hatt. reflexivity. }
+          split.
+          { split; [exact Hres|]. split; [eapply drep_meta_valid; exact R2|]. right. rewrite Es. exact R2. }
+          split; [apply dok_snoc; [exact Hres|exact Hown0|rewrite Es; cbn [snd m_att]; rewrite Hatt; reflexivity]|].
+          rewrite rd_snoc, Es. cbn [fst]. split; [exact R2|].
+          eapply tmps_free_agree; [exact A|exact Hfree|].
+          intros t' [E'|[E'|[]]]; inversion E'; subst; assumption.
       - (* set_recipients_delivered *)
         destruct tmps0 as [|t tmps0]; cbn [length] in Htok; try lia.
         destruct (rlookup (rd d) id0) as [en|] eqn:E; [|cbn [wf_op] in Hwf; rewrite E in Hwf; discriminate].
@@ -234,15 +246,19 @@ Section Crash.
           try reflexivity; try exact Hm; try (apply Hfree, Htin; left; reflexivity).
         + intros s' A. split; [exact Hres|]. pose proof (agree_tmp_rep s s' t _ A Hrep) as R'.
           split; [eapply drep_meta_valid; exact R'|left; exact R'].
-        + intros s2 A G F. split; [apply dok_snoc; [exact Hres|exact Hown0|rewrite Es; reflexivity]|].
-          rewrite rd_snoc, Es. cbn [fst]. split.
-          * unfold disk_rep, rlookup. rewrite nget_set_same.
+        + intros s2 A G F.
+          assert (R2 : drep s2 (aset N.eqb (rd d) id (mkEntry (with_rcpts (en_env en) l) (en_ts en) (en_att en))) id).
+          { unfold disk_rep, rlookup. rewrite nget_set_same.
             exists e, (mkMeta (m_ts m) (m_att m) (Some (accum_mark (deliv_list m) idxs))).
             split; [rewrite A; [exact He|intros [E'|[E'|[]]]; discriminate]|]. split; [exact G|].
             unfold deliv_list in *. cbn [m_ts m_att m_deliv].
-            rewrite (accum_entry_mark e _ _ _ en idxs l Ha Hl), Hts, Hatt. reflexivity.
-          * eapply tmps_free_agree; [exact A|exact Hfree|].
-            intros t' [E'|[E'|[]]]; inversion E'; subst; assumption.
+            rewrite (accum_entry_mark e _ _ _ en idxs l Ha Hl), Hts, Hatt. reflexivity. }
+          split.
+          { split; [exact Hres|]. split; [eapply drep_meta_valid; exact R2|]. right. rewrite Es. exact R2. }
+          split; [apply dok_snoc; [exact Hres|exact Hown0|rewrite Es; reflexivity]|].
+          rewrite rd_snoc, Es. cbn [fst]. split; [exact R2|].
+          eapply tmps_free_agree; [exact A|exact Hfree|].
+          intros t' [E'|[E'|[]]]; inversion E'; subst; assumption.
       - (* get *)
         inversion Hown; subst id0.
         apply (okrun_readonly CI CB); [apply readonly_get| |].
@@ -300,9 +316,10 @@ Section Crash.
     match th_cur th with
     | None => dview s id = rlookup (rd (th_done th)) id
     | Some (ORemove _, _) => True
-    | Some (OWrite _ _ _ _, _) =>
+    | Some (OWrite e ts cands tmps, _) =>
         (rlookup (rd (th_done th)) id = None /\ fget s (PMeta id) = None) \/
-        dview s id = rlookup (rd (th_done th)) id
+        dview s id = rlookup (rd (th_done th)) id \/
+        dview s id = rlookup (fst (ref_step (rd (th_done th)) (OWrite e ts cands tmps))) id
     | Some (o, _) =>
         dview s id = rlookup (rd (th_done th)) id \/
         dview s id = rlookup (fst (ref_step (rd (th_done th)) o)) id
@@ -317,7 +334,7 @@ Section Crash.
       split; [exact Hres|]. split; [exact Hmv|].
       destruct o; try exact I;
         try (destruct Hi as [Hi|Hi]; [left|right]; apply drep_view; exact Hi).
-      destruct Hi as [Hi|Hi]; [left; exact Hi|right; apply drep_view; exact Hi].
+      destruct Hi as [Hi|[Hi|Hi]]; [left; exact Hi|right; left; apply drep_view; exact Hi|right; right; apply drep_view; exact Hi].
     - destruct Hc as (Hres & Hrep & _). split; [exact Hres|]. split; [eapply drep_meta_valid; exact Hrep|].
       apply drep_view. exact Hrep.
   Qed.
@@ -582,7 +599,11 @@ Section Crash.
     { destruct (th_cur th) as [[o p]|] eqn:Ec.
       - specialize (Hcur o p eq_refl).
         destruct o; cbn [is_remove] in Hcur; try discriminate.
-        + destruct Hc as [[Hn _]|Hc]; [congruence|]. exists en0. rewrite Hc. auto.
+        + destruct Hc as [[Hn _]|[Hc|Hc]]; [congruence|exists en0; rewrite Hc; auto|].
+          exists en0. rewrite Hc. split; [|auto]. cbn [ref_step].
+          destruct (first_free (rd (th_done th)) cands) as [c0|] eqn:Ef; cbn [fst]; [|exact E0].
+          destruct (first_free_spec _ _ _ Ef) as [Hfree _]. unfold rlookup in *.
+          rewrite nget_set_other; [exact E0|]. intros ->. congruence.
         + destruct Hc as [Hc|Hc]; [exists en0; rewrite Hc; auto|].
           destruct (ref_step_keeps id (rd (th_done th)) (OSetTs id0 ts0 tmps0) en0 E0 eq_refl) as (en1 & E1 & S1 & C1); [discriminate|].
           exists en1. rewrite Hc. split; [exact E1|split; congruence].
@@ -612,25 +633,54 @@ Section Crash.
     data <> [] -> p <> PTmp t -> fget s (PTmp t) = None ->
     let st := asteps dexec prog_next n s (dump chunk data p t (Ret r)) in
     (forall q, q <> PTmp t -> q <> p -> fget (fst st) q = fget s q) /\
+    (fget (fst st) p = fget s p \/ (fget (fst st) p = Some data /\ fget (fst st) (PTmp t) = None)) /\
     match snd st with
     | Ret _ => fget (fst st) p = Some data /\ fget (fst st) (PTmp t) = None
-    | Do _ _ => fget (fst st) p = fget s p
+    | Do _ _ => True
     end.
   Proof.
     intros Hd Hp Hf st.
-    set (I := fun (_ : list (op * res)) (_ : op) (s' : fs) => agree_but [PTmp t] s s').
     set (B := fun (_ : list (op * res)) (s' : fs) =>
                 agree_but [PTmp t; p] s s' /\ fget s' p = Some data /\ fget s' (PTmp t) = None).
+    set (I := fun (_ : list (op * res)) (_ : op) (s' : fs) => agree_but [PTmp t] s s' \/ B [] s').
     assert (Hok : okrun fs dcmd dans dexec I B [] (OGet 0) s (dump chunk data p t (Ret r))).
     { apply (okrun_dump chunk chunk_pos I B); try assumption.
-      - intros s' A. exact A.
-      - intros s2 A G F. apply ok_ret. repeat split; assumption. }
+      - intros s' A. left. exact A.
+      - intros s2 A G F. split; [right; repeat split; assumption|apply ok_ret; repeat split; assumption]. }
     pose proof (okrun_asteps fs dcmd dans dexec I B [] (OGet 0) n s _ Hok) as H. fold st in H.
+    assert (HB : forall s', B [] s' ->
+                 (forall q, q <> PTmp t -> q <> p -> fget s' q = fget s q) /\
+                 (fget s' p = fget s p \/ (fget s' p = Some data /\ fget s' (PTmp t) = None))).
+    { intros s' (A & G & F). split; [|right; split; assumption].
+      intros q Hq1 Hq2. apply A. intros [E|[E|[]]]; congruence. }
     destruct (snd st) as [r'|c k].
-    - destruct H as (A & G & F). split; [|split; assumption].
-      intros q Hq1 Hq2. apply A. intros [E|[E|[]]]; congruence.
-    - split.
-      + intros q Hq1 Hq2. apply H. intros [E|[]]; congruence.
-      + apply H. intros [E|[]]; congruence.
+    - destruct (HB _ H) as [H1 H2]. split; [exact H1|]. split; [exact H2|]. destruct H as (_ & G & F). split; assumption.
+    - destruct H as [A|Hb].
+      + split; [|split; [left|exact Logic.I]].
+        * intros q Hq1 Hq2. apply A. intros [E|[]]; congruence.
+        * apply A. intros [E|[]]; congruence.
+      + destruct (HB _ Hb) as [H1 H2]. split; [exact H1|]. split; [exact H2|exact Logic.I].
+  Qed.
+
+  (* ---- abort with unwinding = kill *)
+  (* the cleanup clauses only close descriptors: no file-system-visible effect *)
+  Lemma cleanup_closes (p : dprog) c : In c (cleanup_of p) -> exists t, c = CClose t.
+  Proof.
+    destruct p as [r|c0 k]; cbn [cleanup_of]; [intros []|].
+    destruct c0; cbn [In]; intros H; try (destruct H as [<-|[]]; eauto); try (destruct H).
+  Qed.
+
+  Lemma run_cmds_closes s cs : (forall c, In c cs -> exists t, c = CClose t) -> run_cmds s cs = s.
+  Proof.
+    unfold run_cmds. revert s; induction cs as [|c cs IH]; intros s H; [reflexivity|].
+    cbn [fold_left]. destruct (H c (or_introl eq_refl)) as (t & ->). cbn [dexec fst].
+    apply IH. intros c' Hc'. apply H. right; exact Hc'.
+  Qed.
+
+  Lemma abort_equals_crash s (ths : list disk_thread) : abort_all s ths = s.
+  Proof.
+    unfold abort_all. apply run_cmds_closes. intros c Hc. apply in_flat_map in Hc as (th & _ & Hc).
+    unfold th_cleanup in Hc. destruct (th_cur th) as [[o p]|]; [|destruct Hc].
+    eapply cleanup_closes. exact Hc.
   Qed.
 End Crash.
